@@ -9,6 +9,7 @@
 package main
 
 import (
+	"bufio"
 	"encoding/hex"
 	"encoding/json"
 	"fmt"
@@ -75,7 +76,7 @@ func (c *ctx) call(class string, input []byte, fn func()) (panicked bool) {
 			st := string(debug.Stack())
 			c.b.Violation(c.spec.Prop+":panic:"+class+":"+panicSite(st),
 				fmt.Sprintf("%s panicked: %v", class, r),
-				map[string]any{"class": class, "input_hex": hex.EncodeToString(trunc(input, 4096)), "input_len": len(input),
+				map[string]any{"class": class, "input_hex": hex.EncodeToString(trunc(input, 65536)), "input_len": len(input),
 					"panic": fmt.Sprint(r), "stack": trimStack(st), "build": c.spec.Kind})
 		}
 	}()
@@ -234,7 +235,7 @@ func main() {
 			// process-fatal: find the input by re-running with journaling
 			killer := findKiller(cfg, specs[i], sp)
 			tail := c.StderrTail(2500)
-			site := fatalSite(tail)
+			site := fatalSite(firstFatalLine(c) + "\n" + tail)
 			rep.Violation(cfg.Prop+":fatal:"+site, fmt.Sprintf("child %s died (exit=%d signal=%q) inside a codec call", c.Name, c.Exit, c.Signal),
 				map[string]any{"shard": sp, "last_journaled_call": killer, "stderr_tail": tail})
 		}
@@ -246,6 +247,25 @@ func main() {
 		fmt.Println("h_codec: cannot write result:", err)
 		os.Exit(2)
 	}
+}
+
+// firstFatalLine scans the child's whole stderr for the first "fatal error:" / "panic:" /
+// sanitizer line (the tail usually only holds goroutine dumps).
+func firstFatalLine(c *vlib.ChildResult) string {
+	f, err := os.Open(filepath.Join(c.Dir, "stderr"))
+	if err != nil {
+		return ""
+	}
+	defer f.Close()
+	sc := bufio.NewScanner(f)
+	sc.Buffer(make([]byte, 1<<20), 1<<24)
+	for sc.Scan() {
+		ln := sc.Text()
+		if strings.HasPrefix(ln, "fatal error:") || strings.HasPrefix(ln, "panic:") || strings.Contains(ln, "ERROR: AddressSanitizer") || strings.HasPrefix(ln, "runtime: out of memory") {
+			return ln
+		}
+	}
+	return ""
 }
 
 func fatalSite(tail string) string {
